@@ -56,6 +56,19 @@ def seq_fn(name):
     return _str_fns[name]
 
 
+# one line of a FASTA file being read in binary mode (specs/fasta.py): an immutable value with
+# field functions; the engine gives the few byte-level idioms of index_fasta_file a meaning in these terms
+Line = z3.DeclareSort("Line")
+l_b0 = z3.Function("l_b0", Line, Int)  # line[0]
+l_bm2 = z3.Function("l_bm2", Line, Int)  # line[-2]
+l_len = z3.Function("l_len", Line, Int)  # len(line), terminator included
+l_slen = z3.Function("l_slen", Line, Int)  # len(line.rstrip(b"\r\n"))
+l_named = z3.Function("l_named", Line, Bool)  # line[1:].split() is not empty
+l_name = z3.Function("l_name", Line, Str)  # line[1:].split()[0].decode()
+l_off = z3.Function("l_off", Line, Int)  # ghost: byte offset of the start of the line in the file
+l_gp = z3.Function("l_gp", Line, Int)  # ghost: number of sequence-line residues in the file before this line
+acgt = z3.Function("acgt", Int, Bool)  # ghost: residue number g of the file (in l_gp numbering) is one of ACGTacgt
+
 RowArr = z3.ArraySort(Int, Row)
 IntArr = z3.ArraySort(Int, Int)
 
@@ -372,17 +385,34 @@ def satisfiable(pc, timeout_ms=5000):
 # deferred solving: obligations are exported as SMT-LIB text and solved in a process pool
 
 
-def export_query(pc, goal, axioms=None):
-    """SMT-LIB text of `pc and not goal` with the relevant axioms and the per-function heap facts"""
-    q = list(pc) + [z3.Not(goal)]
+def _text(assertions):
+    if assertions is None:
+        return None
     s = z3.Solver()
-    for f in relevant_axioms(q) if axioms is None else axioms:
-        s.add(f)
-    for f in EXTRA:
-        s.add(f)
-    for f in q:
+    for f in assertions:
         s.add(f)
     return s.to_smt2()
+
+
+def build_query(pc, goal, axioms=None):
+    """`pc and not goal` with the relevant axioms and the per-function heap facts, as a list of assertions"""
+    q = list(pc) + [z3.Not(goal)]
+    return list(relevant_axioms(q) if axioms is None else axioms) + list(EXTRA) + q
+
+
+def export_query(pc, goal, axioms=None):
+    """SMT-LIB text of build_query"""
+    return _text(build_query(pc, goal, axioms))
+
+
+def export_bundle(pc, goal, axioms=None):
+    """One SMT-LIB text per obligation: all axioms, the heap facts, the path condition split into conjuncts and
+    the negated goal, in this order, plus the two counts needed to take it apart again.  The weaker variants of
+    the query (cone of influence, linear abstraction, without strings) are derived from it in the solving
+    process, only when they are needed."""
+    ax = list(AXIOMS if axioms is None else axioms)
+    forms = [c for f in pc for c in _conjuncts(f)]
+    return _text(ax + list(EXTRA) + forms + [z3.Not(goal)]), {"n_ax": len(ax), "n_extra": len(EXTRA), "given_axioms": axioms is not None}
 
 
 def _conjuncts(f):
@@ -399,7 +429,7 @@ def _uses_seq(f):
     return "seq." in t or "str." in t or "re." in t
 
 
-def export_noseq(pc, goal, axioms=None):
+def build_noseq(pc, goal, axioms=None):
     """the query with every assumption about strings / tag sequences left out (weaker assumptions, so an
     `unsat` is still a proof).  z3 gives up early on quantifiers mixed with the sequence theory; most
     obligations do not depend on tag contents at all."""
@@ -424,7 +454,11 @@ def export_noseq(pc, goal, axioms=None):
                 kept.append(c)
     if not dropped:
         return None
-    return export_query(kept, goal, axioms)
+    return build_query(kept, goal, axioms)
+
+
+def export_noseq(pc, goal, axioms=None):
+    return _text(build_noseq(pc, goal, axioms))
 
 
 _mul_uf = z3.Function("mul!uf", Int, Int, Int)
@@ -467,7 +501,7 @@ def _linearize(e, memo, hit):
     return r
 
 
-def export_linear(pc, goal, axioms=None):
+def build_linear(pc, goal, axioms=None):
     """the query with non-linear products made opaque; None if there are none"""
     q = list(pc) + [z3.Not(goal)]
     memo, hit = {}, [False]
@@ -485,14 +519,11 @@ def export_linear(pc, goal, axioms=None):
         return None
     if not hit[0]:
         return None
-    s = z3.Solver()
-    for f in relevant_axioms(q) if axioms is None else axioms:
-        s.add(f)
-    for f in lin_extra:
-        s.add(f)
-    for f in lin_q:
-        s.add(f)
-    return s.to_smt2()
+    return list(relevant_axioms(q) if axioms is None else axioms) + lin_extra + lin_q
+
+
+def export_linear(pc, goal, axioms=None):
+    return _text(build_linear(pc, goal, axioms))
 
 
 def _symbols(e, memo):
@@ -519,7 +550,7 @@ def _symbols(e, memo):
     return out
 
 
-def export_sliced(pc, goal, axioms=None):
+def build_sliced(pc, goal, axioms=None):
     """cone of influence at several widths: only the assumptions connected to the goal through shared symbols
     within a few steps, where symbols occurring in many assumptions (hubs such as `self` or the allocation
     counter) do not count as a connection.  Dropping assumptions is sound for proving.  Returns a list of
@@ -557,61 +588,125 @@ def export_sliced(pc, goal, axioms=None):
             continue
         last = n
         q = [f for f, k in zip(allf, keep) if k] + [z3.Not(goal)]
-        s = z3.Solver()
-        for f in relevant_axioms(q) if axioms is None else axioms:
-            s.add(f)
-        for f in q:
-            s.add(f)
-        texts.append(s.to_smt2())
+        texts.append(list(relevant_axioms(q) if axioms is None else axioms) + q)
     return texts or None
 
 
-def export_relaxed(pc, goal):
+def export_sliced(pc, goal, axioms=None):
+    b = build_sliced(pc, goal, axioms)
+    return [_text(q) for q in b] if b else None
+
+
+def build_relaxed(pc, goal):
     """the same query without the axiom defining `cum` (source of candidate counterexamples)"""
     q = list(pc) + [z3.Not(goal)]
     if not mentions(q, {"prefix"}):
         return None
+    return [f for f in AXIOMS if f is not PREFIX_AXIOM] + list(EXTRA) + q
+
+
+def export_relaxed(pc, goal):
+    return _text(build_relaxed(pc, goal))
+
+
+class _Lazy:
+    """a derived query, built when first asked for: list of assertions (or None), or SMT-LIB text"""
+
+    def __init__(self, thunk):
+        self.thunk = thunk
+        self.done = False
+        self.val = None
+
+    def get(self):
+        if not self.done:
+            try:
+                self.val = self.thunk()
+            except Exception:
+                self.val = None
+            self.done = True
+        return self.val
+
+
+def _solver(q, timeout_ms, seed=None):
     s = z3.Solver()
-    for f in AXIOMS:
-        if f is not PREFIX_AXIOM:
+    s.set("timeout", int(timeout_ms))
+    if seed is not None:
+        s.set("random_seed", seed)
+        s.set("smt.random_seed", seed)
+    if isinstance(q, str):
+        s.from_string(q)
+    else:
+        for f in q:
             s.add(f)
-    for f in EXTRA:
-        s.add(f)
-    for f in q:
-        s.add(f)
-    return s.to_smt2()
+    return s
+
+
+def solve_bundle(text, meta, timeout_ms=10000, cvc5_timeout_ms=20000):
+    """take an exported bundle apart and run the ladder of attempts on it (see solve_text)"""
+    global AXIOMS, EXTRA, PREFIX_AXIOM
+    A = list(z3.parse_smt2_string(text))
+    n_ax, n_ex = meta["n_ax"], meta["n_extra"]
+    saved = (AXIOMS, EXTRA, PREFIX_AXIOM)
+    try:
+        AXIOMS = A[:n_ax]
+        EXTRA = A[n_ax : n_ax + n_ex]
+        PREFIX_AXIOM = next((a for a in AXIOMS if z3.is_quantifier(a) and _is_prefix_axiom(a)), None)
+        pc = A[n_ax + n_ex : -1]
+        neg = A[-1]
+        goal = neg.arg(0) if z3.is_not(neg) else z3.Not(neg)
+        axioms = list(AXIOMS) if meta.get("given_axioms") else None
+        full = _Lazy(lambda: build_query(pc, goal, axioms))
+        return _ladder(
+            full,
+            _Lazy(lambda: build_relaxed(pc, goal) if axioms is None else None),
+            timeout_ms,
+            cvc5_timeout_ms,
+            _Lazy(lambda: build_noseq(pc, goal, axioms)),
+            _Lazy(lambda: build_linear(pc, goal, axioms)),
+            _Lazy(lambda: build_sliced(pc, goal, axioms)),
+        )
+    finally:
+        AXIOMS, EXTRA, PREFIX_AXIOM = saved
+
+
+class _Const:
+    def __init__(self, v):
+        self.v = v
+
+    def get(self):
+        return self.v
 
 
 def solve_text(text, relaxed, timeout_ms=10000, cvc5_timeout_ms=20000, noseq=None, linear=None, sliced=None):
-    """verdict dict for one exported query"""
+    """verdict dict for one exported query (the variants already exported as texts), or for a bundle"""
+    if isinstance(relaxed, dict):
+        return solve_bundle(text, relaxed, timeout_ms, cvc5_timeout_ms)
+    return _ladder(_Const(text), _Const(relaxed), timeout_ms, cvc5_timeout_ms, _Const(noseq), _Const(linear), _Const(sliced))
+
+
+def _ladder(L_text, L_relaxed, timeout_ms, cvc5_timeout_ms, L_noseq, L_linear, L_sliced):
+    """the attempts, all sound for proving, cheapest first: cones of influence, linear abstraction, the full
+    query, the query without string assumptions, two more random seeds, cvc5"""
     t0 = time.time()
-    for si, stext in enumerate(sliced or []):
-        s0 = z3.Solver()
-        s0.set("timeout", max(1500, int(timeout_ms) // 6))
-        s0.from_string(stext)
-        if s0.check() == z3.unsat:
+    for si, q in enumerate(L_sliced.get() or []):
+        if _solver(q, max(1500, int(timeout_ms) // 6)).check() == z3.unsat:
             return {"status": "discharged", "backend": "z3", "seconds": round(time.time() - t0, 4), "note": f"cone of influence (width {si})"}
+    linear = L_linear.get()
     if linear:
         # most obligations of code that mentions products need no non-linear reasoning: try the
         # linear abstraction first (an `unsat` of the weaker query is a proof), it is much faster
-        s0 = z3.Solver()
-        s0.set("timeout", max(2000, int(timeout_ms) // 3))
-        s0.from_string(linear)
-        if s0.check() == z3.unsat:
+        if _solver(linear, max(2000, int(timeout_ms) // 3)).check() == z3.unsat:
             return {"status": "discharged", "backend": "z3", "seconds": round(time.time() - t0, 4), "note": "products treated as uninterpreted"}
-    s = z3.Solver()
-    s.set("timeout", int(timeout_ms))
-    s.from_string(text)
+    text = L_text.get()
+    s = _solver(text, timeout_ms)
     r = s.check()
     dt = time.time() - t0
     if r == z3.unsat:
         return {"status": "discharged", "backend": "z3", "seconds": round(dt, 4)}
     short_ms = max(2000, int(timeout_ms) // 3)
+    noseq = L_noseq.get() if r == z3.unknown else None
     if r == z3.unknown and noseq:
-        s1 = z3.Solver()
-        s1.set("timeout", short_ms)
-        s1.from_string(noseq)
-        if s1.check() == z3.unsat:
+        if _solver(noseq, short_ms).check() == z3.unsat:
             return {"status": "discharged", "backend": "z3", "seconds": round(time.time() - t0, 4), "note": "without string assumptions"}
     if r == z3.unknown:
         # quantifier instantiation order depends on the solver's random seed: retry before giving up
@@ -619,11 +714,7 @@ def solve_text(text, relaxed, timeout_ms=10000, cvc5_timeout_ms=20000, noseq=Non
             for txt in (text, noseq):
                 if not txt:
                     continue
-                s2 = z3.Solver()
-                s2.set("timeout", short_ms)
-                s2.set("random_seed", seed)
-                s2.set("smt.random_seed", seed)
-                s2.from_string(txt)
+                s2 = _solver(txt, short_ms, seed)
                 r2 = s2.check()
                 if r2 == z3.unsat:
                     return {"status": "discharged", "backend": "z3", "seconds": round(time.time() - t0, 4), "note": f"retry seed {seed}"}
@@ -639,7 +730,7 @@ def solve_text(text, relaxed, timeout_ms=10000, cvc5_timeout_ms=20000, noseq=Non
         reason = s.reason_unknown()
     out = {"status": "undecided", "backend": "z3", "seconds": round(dt, 4), "reason": f"z3: {reason}"}
     if os.path.exists(CVC5) and cvc5_timeout_ms > 0:
-        v2 = _cvc5_text("(set-logic ALL)\n" + text, cvc5_timeout_ms)
+        v2 = _cvc5_text("(set-logic ALL)\n" + (text if isinstance(text, str) else _text(text)), cvc5_timeout_ms)
         out["seconds"] = round(dt + v2.seconds, 4)
         if v2.status == "unsat":
             return {"status": "discharged", "backend": "cvc5", "seconds": out["seconds"]}
@@ -648,10 +739,9 @@ def solve_text(text, relaxed, timeout_ms=10000, cvc5_timeout_ms=20000, noseq=Non
             out["reason"] += "; cvc5: sat (unvalidated)"
             return out
         out["reason"] += f"; cvc5: {v2.reason}"
+    relaxed = L_relaxed.get()
     if relaxed:
-        s2 = z3.Solver()
-        s2.set("timeout", int(min(timeout_ms, 5000)))
-        s2.from_string(relaxed)
+        s2 = _solver(relaxed, int(min(timeout_ms, 5000)))
         if s2.check() == z3.sat:
             out["candidate_model"] = _model_str(s2)
             out["reason"] += "; candidate counterexample exists when `cum` is left uninterpreted"
